@@ -241,6 +241,12 @@ func (ip *Inode) indbmap(atxn *alloctxn.AllocTxn, root_ common.Bnum, level uint6
 	if newnextroot != nxtroot {
 		buf.BnumPut(bo, newnextroot)
 	}
+	if blkno == common.NULLBNUM && root_ == common.NULLBNUM {
+		// nothing below this new index block could be allocated: don't
+		// keep an empty index block that no file size accounts for
+		atxn.FreeBlock(root)
+		return common.NULLBNUM, common.NULLBNUM
+	}
 	return blkno, root
 }
 
